@@ -243,7 +243,7 @@ def pure_calls():
     A(("gn.interp_left", ["xq", "xf", "yy"], lambda xq, xf, yy: gn.interp_left(xq, xf, yy)))
     A(("gn.remove_poly", ["v"], lambda v: gn.remove_poly(v, poly_fit=2)))
     A(("ts.put_array_in_2d_array", ["v", "sh"], lambda v, sh: ts.put_array_in_2d_array(v, sh, clip="both")))
-    A(("ts.join_values_w_shifts", ["v", "sh"], lambda v, sh: ts.join_values_w_shifts(v, sh, jtype="sub")))
+    A(("ts.join_values_w_shifts", ["v", "shp"], lambda v, sh: ts.join_values_w_shifts(v, sh, jtype="sub")))
     A(("ts.join_sig_w_time_shift", ["asig", "tsh"], lambda s, tsh: ts.join_sig_w_time_shift(s, tsh)))
     A(("tp.interp_array_to_approx_dt", ["v"], lambda v: tp.interp_array_to_approx_dt(v, DT, 0.004)))
     A(("tp.interp_array_to_approx_dt(decimate)", ["v"], lambda v: tp.interp_array_to_approx_dt(v, DT, 0.025)))
@@ -269,7 +269,7 @@ def make_env(dtype, container, seed):
     import eqsig
     from eqsig import stockwell
     rng = np.random.default_rng(seed)
-    n = 64
+    n = 256
     x = np.sin(np.arange(n) / 3.0) * 2 + rng.standard_normal(n) + 0.3
     y = np.cos(np.arange(n) / 4.0) * 2 + rng.standard_normal(n)
     if dtype == "int64":
@@ -285,7 +285,7 @@ def make_env(dtype, container, seed):
            "ff": np.array(asig.fa_freqs), "fa": np.array(asig.fa_spectrum), "sf": np.logspace(-0.3, 1.3, 9),
            "xq": np.array([0.5, 1.0, 2.2, 2.5]), "xf": np.array([0.0, 1.0, 2.0, 3.0]),
            "tab": np.array([[0, 0, 0], [0, 1, 4], [2, 6, 2], [10, 10, 10.0]]), "yy": wrap(np.array([5.0, 6.0, 7.5, 9.0])),
-           "sh": np.array([-2, 0, 3]), "tsh": np.array([0.0, 0.02, 0.05]), "tt": np.array([0.0, 0.015, 0.04]),
+           "sh": np.array([-2, 0, 3]), "shp": np.array([0, 2, 3]), "tsh": np.array([0.0, 0.02, 0.05]), "tt": np.array([0.0, 0.015, 0.04]),
            "red": np.array([1.0, 0.9, 0.5]), "stock": stockwell.transform(x.astype(float))}
     from eqsig.fns import frequency as fq
     env["mat"] = fq.calc_smoothing_matrix_konno_1998(np.array(asig.fa_freqs), env["sf"])
